@@ -90,6 +90,17 @@ var c13Ops = []c13Op{
 	{"String", func(st influxql.Statement) { _ = st.String() }},
 	{"RequiredPrivileges", func(st influxql.Statement) { _, _ = st.RequiredPrivileges() }},
 	{"Walk", func(st influxql.Statement) { influxql.WalkFunc(st, func(influxql.Node) {}) }},
+	{"RewriteFunc(identity)", func(st influxql.Statement) {
+		if st2, err := influxql.ParseStatement(st.String()); err == nil { // a private copy: Rewrite works in place
+			_ = influxql.RewriteFunc(st2, func(n influxql.Node) influxql.Node { return n })
+			_ = st2.String()
+		}
+	}},
+	{"RewriteExpr(identity, condition)", func(st influxql.Statement) {
+		if c := conditionOf(st); c != nil {
+			_ = influxql.RewriteExpr(influxql.CloneExpr(c), func(e influxql.Expr) influxql.Expr { return e })
+		}
+	}},
 	{"DefaultDatabase", func(st influxql.Statement) {
 		if d, ok := st.(influxql.HasDefaultDatabase); ok {
 			_ = d.DefaultDatabase()
